@@ -1,4 +1,4 @@
 From Coq Require Extraction.
 From Coq Require Import ExtrOcamlBasic.
 From RM Require Import C13.Driver.
-Extraction "c13_model.ml" run_limits_json run_certs run_linux.
+Extraction "c13_model.ml" run_limits_json run_certs run_linux run_cfi_rules.
